@@ -62,12 +62,12 @@ CLAIMED["C01"] = ("ovf-system", "exploration",
 
 CLAIMED["C02"] = ("ovf-system", "exploration",
   "end-to-end property testing of the real binaries over loopback UDP: generated histories of datagrams from several scripted applications to several scripted echo targets, multiset / ownership / label oracle; plus metamorphic segmentation testing of the datagram-in-stream framings",
-  "For each case a fresh client and server are started for one README UDP row (Shadowsocks x 7 ciphers, with a user table for the 2022 AES ciphers; VMess x 2 ciphers x tcp/tls/ws/wss/quic; Trojan x tls/wss/quic). 1..4 application sockets send a generated history of SOCKS5-UDP datagrams (sizes 0..40000 quick / 65000 thorough with protocol edges; targets addressed by IPv4 or by name) to 1..3 echo targets that answer with a reply naming themselves and repeating the payload. Oracle: every datagram a target receives equals one addressed to it, at most as often as it was sent (never truncated, merged, altered, duplicated or misdelivered); every reply an application receives is a well-formed SOCKS5-UDP datagram labelled with the replying target, answers a datagram that application sent, at most once; a datagram of at most 32 KiB must be answered within three paced attempts. All 22 UDP configurations are exercised in every run. empty-replies (all 22 rows in every run): a target that answers with empty datagrams must see them delivered with its label, at most once each, and a later ordinary datagram is still answered (VMess, which has no representation for an empty datagram, is only required to keep the session working). The VMess and Trojan stream framings of datagrams are additionally decoded through FramedRead / WebSocketFramed under generated segmentations (count, boundaries and bytes preserved).",
+  "For each case a fresh client and server are started for one README UDP row (Shadowsocks x 7 ciphers, with a user table for the 2022 AES ciphers; VMess x 2 ciphers x tcp/tls/ws/wss/quic; Trojan x tls/wss/quic). 1..4 application sockets send a generated history of SOCKS5-UDP datagrams (sizes 0..40000 quick / 65000 thorough with protocol edges, and the largest sizes a local application can send at all, 65300..65497; targets addressed by IPv4 or by name) to 1..3 echo targets that answer with a reply naming themselves and repeating the payload. Oracle: every datagram a target receives equals one addressed to it, at most as often as it was sent (never truncated, merged, altered, duplicated or misdelivered); every reply an application receives is a well-formed SOCKS5-UDP datagram labelled with the replying target, answers a datagram that application sent, at most once; a datagram of at most 32 KiB must be answered within three paced attempts. All 22 UDP configurations are exercised in every run. empty-replies (all 22 rows in every run): a target that answers with empty datagrams must see them delivered with its label, at most once each, and a later ordinary datagram is still answered (VMess, which has no representation for an empty datagram, is only required to keep the session working). The VMess and Trojan stream framings of datagrams are additionally decoded through FramedRead / WebSocketFramed under generated segmentations (count, boundaries and bytes preserved).",
   "Trusted: loopback UDP does not lose paced datagrams (loss alone is never a violation; non-delivery is confirmed on three fresh clusters); reference encoder for the framing sub-check.", "DESIGN.md 5/C02")
 
 CLAIMED["C08"] = ("ovf-system", "fault_enumeration",
   "fault injection against the real binaries over loopback: every fault of a 20-entry catalogue alone on 14 representative configurations (exhaustive), all ordered pairs (thorough) and generated sequences up to length 4 (proptest), each followed by canary flows that must succeed",
-  "Catalogue: stalled / garbage / partial-TLS-hello / half-WebSocket-upgrade / connect-close peers on the server's listener; stalled / garbage / partial-SOCKS5 applications on the client's listener; unresolvable and refused targets; application and target resets mid-flow; junk and replayed datagrams to the server, datagrams to unresolvable targets, malformed local SOCKS5-UDP datagrams, junk to the client's outbound sockets; temporary descriptor exhaustion of server and of client (RLIMIT_NOFILE=80, connections opened until the limit is reached, new UDP sessions arriving meanwhile, then released). Oracle after each sequence, with the hostile connections still open: a fresh byte-exact TCP echo through the same client and server succeeds; where UDP is configured a fresh application's datagram and a datagram of a session that existed before the faults are echoed; both processes alive, no panic, listeners and UDP sockets still bound (/proc). Each fault reports whether it took effect.",
+  "Catalogue: stalled / garbage / partial-TLS-hello / half-WebSocket-upgrade / connect-close peers on the server's listener; stalled / garbage / partial-SOCKS5 applications on the client's listener; unresolvable and refused targets; application and target resets mid-flow; junk and replayed datagrams to the server, datagrams to unresolvable targets, malformed local SOCKS5-UDP datagrams, junk to the client's outbound sockets; temporary descriptor exhaustion (also walked through a flow: every descriptor taken, released one at a time, a whole flow attempted after each release, on freshly started processes), 640 failed handshakes in a row on either listener, of server and of client (RLIMIT_NOFILE=80, connections opened until the limit is reached, new UDP sessions arriving meanwhile, then released). Oracle after each sequence, with the hostile connections still open: a fresh byte-exact TCP echo through the same client and server succeeds; where UDP is configured a fresh application's datagram and a datagram of a session that existed before the faults are echoed; both processes alive, no panic, listeners and UDP sockets still bound (/proc). Each fault reports whether it took effect.",
   "Trusted: /proc for descriptor and socket observation; 10 s canary deadline, confirmed on two more fresh clusters. Black-holed addresses are not in the catalogue (no dropping route in the sandbox).", "DESIGN.md 5/C08")
 
 CLAIMED["C15"] = ("ovf-system", "fault_enumeration",
